@@ -304,11 +304,41 @@ def task_placement_safety(pr, repo):
                     pr.explore(ex, thunk, 'placement safety %s %d/%d/%d' % (meth, nb, others, nsteric))
 
 
+def task_sybyl_shapes(pr, repo):
+    """SY: ligand atom typing completes for an atom with any number of remaining neighbours (0..3) - removing the neighbour of a
+    terminal atom leaves an atom without bonds."""
+    ex = Executor(repo)
+    fi = repo.func('propka.ligand.assign_sybyl_type')
+    pr.under_contract(fi)
+    A = repo.cls('propka.atom.Atom')
+    ex.contracts['propka.ligand.is_ring_member'] = lambda ex_, c_, f_, a, k, so: []
+    ex.contracts['propka.ligand.is_aromatic_ring'] = lambda ex_, c_, f_, a, k, so: False
+    ex.contracts['propka.ligand.is_planar'] = lambda ex_, c_, f_, a, k, so: ex_.ctx.branch(B('planar'))
+    ex.contracts['propka.ligand.identify_ring'] = lambda ex_, c_, f_, a, k, so: []
+    for el in ('O', 'N', 'C', 'S', 'P', 'F', 'Cl', 'X'):
+        for nb in (0, 1, 2, 3):
+            for nel in ('C', 'O', 'N'):
+                def thunk(ex, ctx, el=el, nb=nb, nel=nel):
+                    at = record('at', A, element=el, name=el + '1', sybyl_assigned=False, sybyl_type='', type='hetatm', bonded_atoms=[],
+                                res_name='LIG', res_num=1, chain_id='L')
+                    for i in range(nb):
+                        n_ = record('n%d' % i, A, element=nel, name=nel + str(i), sybyl_assigned=False, sybyl_type='', type='hetatm',
+                                    bonded_atoms=[at], res_name='LIG', res_num=1, chain_id='L')
+                        at.attrs['bonded_atoms'].append(n_)
+                    try:
+                        ex.call_function(fi, [at])
+                    except PyRaise as e:
+                        ctx.oblige('SY[%s with %d %s neighbour(s)]: assign_sybyl_type raises %s' % (el, nb, nel, e.exc_name), False)
+                        return
+                    ctx.oblige('SY[%s with %d %s neighbour(s)]: typing completes' % (el, nb, nel), True)
+                pr.explore(ex, thunk, 'assign_sybyl_type %s %d %s' % (el, nb, nel))
+
+
 def run(pr, repo):
     pr.parallel([(task_setup_atoms, ()), (task_placement_safety, ()), (task_interactions, ()), (task_reject, ()), (task_precheck, ()), (C05.task_smallest, ()),
                  (C01.task_classify, ()), (C01.task_setup, ()),
                  # a group that only some conformation still has (atoms missing in model 1) is still reported in the average
-                 (C08.task_average, (2, ('census',)))])
+                 (C08.task_average, (2, ('census',))), (C16.task_version_hb, ()), (task_sybyl_shapes, ())])
     pr.assumptions += ['protonation inside setup_atoms is abstracted to "adds 0, 1 or 2 hydrogens bonded to that atom"',
                        'the pipeline as a whole is NOT proved exception free (ligand typing, ring search and hydrogen placement '
                        'rescale vectors that are zero for coincident/collinear atoms): bounded deletion monitor',
